@@ -173,50 +173,57 @@ def takeVerbatim (sentinel : List Char) : List Char → List Char → Option (Li
     if sentinel.isPrefixOf (c :: cs) then some (acc.reverse, (c :: cs).drop sentinel.length)
     else takeVerbatim sentinel cs (c :: acc)
 
+/-- split at the first character satisfying p (which stays at the head of the second part) -/
+def breakOn (p : Char → Bool) : List Char → List Char × List Char
+  | [] => ([], [])
+  | x :: xs => if p x then ([], x :: xs) else ((breakOn p xs).1.cons x, (breakOn p xs).2)
+
 /-- the code points a quoted-string body spells (none = not a well-formed literal) -/
 def strValue : Nat → List Char → Option (List Nat)
   | 0, _ => none
-  | _, [] => some []
-  | fuel + 1, '\\' :: rest =>
-    match rest with
-    | [] => none
-    | '[' :: r =>
-      let (hex, after) := r.span (· ≠ ']')
-      match after with
-      | ']' :: r' =>
-        if hex.isEmpty then none else
-        match CE.Cte.ArrFmt.parseDigits 16 hex 0 with
-        | some cp => if validScalar cp then (strValue fuel r').map (cp :: ·) else none
-        | none => none
-      | _ => none
-    | '.' :: r =>
-      let (sentinel, after) := r.span (fun c => !(c = ' ' || c = '\t' || c = '\n' || c = '\r'))
-      if sentinel.isEmpty then none else
-      let body : Option (List Char) := match after with
-        | '\r' :: '\n' :: b => some b
-        | ' ' :: b | '\t' :: b | '\n' :: b => some b
-        | _ => none
-      match body with
-      | none => none
-      | some b =>
-        match takeVerbatim sentinel b [] with
-        | some (contents, r') => (strValue fuel r').map ((contents.map Char.toNat) ++ ·)
-        | none => none
-    | c :: r =>
-      if c = '\n' || c = '\r' then strValue fuel (r.dropWhile isWs)
-      else
-        let one (cp : Nat) := (strValue fuel r).map (cp :: ·)
-        if c = 'n' || c = 'N' then one 10
-        else if c = 'r' || c = 'R' then one 13
-        else if c = 't' || c = 'T' then one 9
-        else if c = '"' then one 34
-        else if c = '*' then one 42
-        else if c = '/' then one 47
-        else if c = '\\' then one 92
-        else if c = '-' then one 0xAD
-        else if c = '_' then one 0xA0
-        else none
-  | fuel + 1, c :: rest => if c = '"' then none else (strValue fuel rest).map (c.toNat :: ·)
+  | _ + 1, [] => some []
+  | fuel + 1, c :: rest =>
+    if c = '\\' then
+      match rest with
+      | [] => none
+      | e :: r =>
+        if e = '[' then
+          let hex := (breakOn (· = ']') r).1
+          match (breakOn (· = ']') r).2 with
+          | ']' :: r' =>
+            if hex.isEmpty then none else
+            match CE.Cte.ArrFmt.parseDigits 16 hex 0 with
+            | some cp => if validScalar cp then (strValue fuel r').map (cp :: ·) else none
+            | none => none
+          | _ => none
+        else if e = '.' then
+          let sentinel := (breakOn isWs r).1
+          if sentinel.isEmpty then none else
+          let body : Option (List Char) := match (breakOn isWs r).2 with
+            | '\r' :: '\n' :: b => some b
+            | ' ' :: b | '\t' :: b | '\n' :: b => some b
+            | _ => none
+          match body with
+          | none => none
+          | some b =>
+            match takeVerbatim sentinel b [] with
+            | some (contents, r') => (strValue fuel r').map ((contents.map Char.toNat) ++ ·)
+            | none => none
+        else if e = '\n' || e = '\r' then strValue fuel (r.dropWhile isWs)
+        else
+          let one (cp : Nat) := (strValue fuel r).map (cp :: ·)
+          if e = 'n' || e = 'N' then one 10
+          else if e = 'r' || e = 'R' then one 13
+          else if e = 't' || e = 'T' then one 9
+          else if e = '"' then one 34
+          else if e = '*' then one 42
+          else if e = '/' then one 47
+          else if e = '\\' then one 92
+          else if e = '-' then one 0xAD
+          else if e = '_' then one 0xA0
+          else none
+    else if c = '"' then none
+    else (strValue fuel rest).map (c.toNat :: ·)
 
 def strBytes (body : String) : Option (List Nat) :=
   (strValue (body.length + 1) body.toList).map fun cps => cps.flatMap utf8Encode
